@@ -765,6 +765,10 @@ namespace bloch::update {
         size_t lead = 0;
         while (lead < tag.size() && std::isspace(static_cast<unsigned char>(tag[lead]))) ++lead;
         tag.erase(0, lead);
+        // A tag that is not a single line is no tag: written into the cache it would be read back
+        // as a shorter tag followed by a notice time of its own making.
+        if (tag.find_first_of("\r\n") != std::string::npos)
+            return;
 
         cache.latestVersion = tag;
         cache.lastChecked = now;
